@@ -218,18 +218,29 @@ func (s *TieredCompactionStrategy) CompactRange(minKey, maxKey []byte) error {
 		}
 	}
 
-	// Find overlapping files in each level
-	for level := 0; level <= maxLevel; level++ {
-		var overlappingFiles []*SSTableInfo
-
-		for _, file := range s.levels[level] {
-			if file.Overlaps(rangeInfo) {
-				overlappingFiles = append(overlappingFiles, file)
+	// Find overlapping files in each level. Whole files move to the target level,
+	// so the range grows to the keys of every selected file and the search is
+	// repeated until no further file overlaps it: a file left behind must not
+	// share a key with a file that moves below it, or its older version of that
+	// key would shadow the newer one
+	selected := make(map[*SSTableInfo]bool)
+	for grew := true; grew; {
+		grew = false
+		for level := 0; level <= maxLevel; level++ {
+			for _, file := range s.levels[level] {
+				if selected[file] || !file.Overlaps(rangeInfo) {
+					continue
+				}
+				selected[file] = true
+				task.InputFiles[level] = append(task.InputFiles[level], file)
+				if bytes.Compare(file.FirstKey, rangeInfo.FirstKey) < 0 {
+					rangeInfo.FirstKey = file.FirstKey
+				}
+				if bytes.Compare(file.LastKey, rangeInfo.LastKey) > 0 {
+					rangeInfo.LastKey = file.LastKey
+				}
+				grew = true
 			}
-		}
-
-		if len(overlappingFiles) > 0 {
-			task.InputFiles[level] = overlappingFiles
 		}
 	}
 
